@@ -77,8 +77,20 @@ var scratch string
 
 func scratchDir(sub string) string {
 	if scratch == "" {
-		d, err := os.MkdirTemp("", "c15-fs-")
-		if err != nil {
+		// directories of processes that no longer exist (killed workers) are removed first
+		if old, _ := filepath.Glob(filepath.Join(os.TempDir(), "c15-fs-*")); len(old) > 0 {
+			for _, d := range old {
+				var pid int
+				if _, err := fmt.Sscanf(filepath.Base(d), "c15-fs-%d", &pid); err == nil {
+					if _, err := os.Stat(fmt.Sprintf("/proc/%d", pid)); os.IsNotExist(err) {
+						os.RemoveAll(d)
+					}
+				}
+			}
+		}
+		d := filepath.Join(os.TempDir(), fmt.Sprintf("c15-fs-%d", os.Getpid()))
+		os.RemoveAll(d)
+		if err := os.Mkdir(d, 0o755); err != nil {
 			panic(err)
 		}
 		scratch = d
@@ -844,6 +856,9 @@ func closure(v variant, maxStates int) (hists [][]op, closed bool) {
 	for i := 0; i < len(hists); i++ {
 		w := frontier[i]
 		frontier[i] = nil
+		if i%5000 == 4999 {
+			heartbeat()
+		}
 		for _, a := range alphabet {
 			if !w.applicable(a) {
 				continue
@@ -864,6 +879,14 @@ func closure(v variant, maxStates int) (hists [][]op, closed bool) {
 		}
 	}
 	return hists, closed
+}
+
+// heartbeat tells the parent process that this worker is alive while it enumerates the reference
+// states (the parent treats every output line as a sign of life and ignores lines it does not know).
+func heartbeat() {
+	if os.Getenv("VLIB_WORKER") != "" {
+		fmt.Fprintln(os.Stdout, "# c15: enumerating reference states")
+	}
 }
 
 var closureCache = map[string][][]op{}
@@ -948,7 +971,7 @@ func plans(thorough bool) []plan {
 			ps = append(ps, plan{v, 5, 3, false})
 		}
 		ps = append(ps, plan{variant{"fs", true, "str"}, 4, 2, false}, plan{variant{"fs", false, "str"}, 4, 2, false})
-		ps = append(ps, plan{variant{"sep", true, "str"}, 6, 3, true}, plan{variant{"sep", false, "str"}, 6, 3, true})
+		ps = append(ps, plan{variant{"sep", true, "str"}, 6, 4, true}, plan{variant{"sep", false, "str"}, 6, 4, true})
 	} else {
 		for _, v := range all {
 			ps = append(ps, plan{v, 4, 2, false})
